@@ -1,2 +1,475 @@
+(* Proofs/RotProofs.v -- lemmas about Model/RotModel.v (C03). *)
 From Coq Require Import ZArith NArith List Bool Lia.
 Require Import Value Bytes BytesProofs Sha2 GenRot RotModel.
+Import ListNotations.
+Ltac Zify.zify_post_hook ::= Z.to_euclidean_division_equations.
+Local Open Scope N_scope.
+
+(* ====================================================================================== *)
+(* encoders, sizes                                                                          *)
+(* ====================================================================================== *)
+Lemma le_encf_eq w n : le_encf w n = le_enc w n.
+Proof.
+  revert n; induction w as [|w IH]; intros n; [reflexivity|].
+  cbn [le_encf le_enc]. rewrite IH. f_equal.
+  - change 255 with (N.ones 8). rewrite N.land_ones. reflexivity.
+  - rewrite N.shiftr_div_pow2. reflexivity.
+Qed.
+Lemma be_encf_eq w n : be_encf w n = be_enc w n.
+Proof. unfold be_encf, be_enc. now rewrite le_encf_eq. Qed.
+Lemma be_encf_length w n : length (be_encf w n) = w.
+Proof. rewrite be_encf_eq. apply be_enc_length. Qed.
+Lemma be_encf_wf w n : wf_bytes (be_encf w n).
+Proof. rewrite be_encf_eq. apply be_enc_wf. Qed.
+
+Lemma rsize_upper n : n < 2 ^ N.size n.
+Proof. apply N.size_gt. Qed.
+Lemma rsize_lower n : n <> 0 -> 2 ^ (N.size n - 1) <= n.
+Proof.
+  intros Hn. pose proof (N.size_le n) as H.
+  assert (Hs : N.size n <> 0) by (destruct n; [contradiction|simpl; discriminate]).
+  replace (N.size n) with (N.succ (N.size n - 1)) in H by lia.
+  rewrite N.pow_succ_r' in H.
+  destruct n as [|p]; [contradiction|]. simpl N.succ_double in H. lia.
+Qed.
+Lemma rsize_le_iff n k : N.size n <= k <-> n < 2 ^ k.
+Proof.
+  split; intros H.
+  - eapply N.lt_le_trans; [apply rsize_upper|]. apply N.pow_le_mono_r; lia.
+  - destruct (N.eq_dec n 0) as [->|Hn]; [simpl; lia|].
+    destruct (N.le_gt_cases (N.size n) k) as [|Hgt]; [assumption|exfalso].
+    pose proof (rsize_lower n Hn) as HL.
+    assert (2 ^ k <= 2 ^ (N.size n - 1)) by (apply N.pow_le_mono_r; lia). lia.
+Qed.
+
+Lemma to_bytes_ok len v : v < 2 ^ (8 * N.of_nat len) -> to_bytes len v = Ok (be_encf len v).
+Proof. intros H. unfold to_bytes. apply rsize_le_iff in H. apply N.leb_le in H. now rewrite H. Qed.
+Lemma to_bytes_inv len v b : to_bytes len v = Ok b -> b = be_encf len v /\ v < 2 ^ (8 * N.of_nat len).
+Proof.
+  unfold to_bytes. destruct (N.size v <=? 8 * N.of_nat len) eqn:E; [|discriminate].
+  intros H; inversion H; subst. split; [reflexivity|]. apply rsize_le_iff. now apply N.leb_le.
+Qed.
+
+Lemma byte_len_bound v : v < 2 ^ (8 * N.of_nat (byte_len v)).
+Proof.
+  eapply N.lt_le_trans; [apply rsize_upper|]. apply N.pow_le_mono_r; [lia|].
+  unfold byte_len. rewrite N2Nat.id. lia.
+Qed.
+Lemma be_dec_be_min v : be_dec (be_min v) = v.
+Proof. unfold be_min. rewrite be_encf_eq. apply be_dec_enc_small. apply byte_len_bound. Qed.
+(* minimality: no shorter big-endian string holds v *)
+Lemma be_min_minimal v w : (w < byte_len v)%nat -> be_dec (be_encf w v) <> v.
+Proof.
+  intros Hw. rewrite be_encf_eq, be_dec_enc.
+  assert (Hv : v <> 0).
+  { intros ->. unfold byte_len in Hw. simpl in Hw. lia. }
+  pose proof (rsize_lower v Hv) as HL.
+  assert (HP : 2 ^ (8 * N.of_nat w) <= 2 ^ (N.size v - 1)).
+  { apply N.pow_le_mono_r; [lia|]. unfold byte_len in Hw. lia. }
+  intros E. assert (v mod 2 ^ (8 * N.of_nat w) < 2 ^ (8 * N.of_nat w)) by (apply N.mod_lt; apply N.pow_nonzero; lia).
+  lia.
+Qed.
+
+(* ====================================================================================== *)
+(* hashes                                                                                   *)
+(* ====================================================================================== *)
+Lemma digest_bytes_length c s : length (digest_bytes c s) = (8 * wbytes c)%nat.
+Proof.
+  destruct s as [[[[[[[a b] cc] d] e] f] g] h]. unfold digest_bytes. cbn [map concat].
+  rewrite !app_length, !be_enc_length. simpl. lia.
+Qed.
+Lemma sha256_length m : length (sha256 m) = 32%nat.
+Proof. unfold sha256, sha2. rewrite firstn_length, digest_bytes_length. reflexivity. Qed.
+Lemma sha384_length m : length (sha384 m) = 48%nat.
+Proof. unfold sha384, sha2. rewrite firstn_length, digest_bytes_length. reflexivity. Qed.
+Lemma sha512_length m : length (sha512 m) = 64%nat.
+Proof. unfold sha512, sha2. rewrite firstn_length, digest_bytes_length. reflexivity. Qed.
+Lemma hash_length a m : length (hash a m) = hlen a.
+Proof. destruct a; [apply sha256_length|apply sha384_length|apply sha512_length]. Qed.
+Lemma nlen_sha256 m : nlen (sha256 m) = 32.
+Proof. unfold nlen. now rewrite sha256_length. Qed.
+(* from here on the hash functions are black boxes for unification (vm_compute still evaluates them) *)
+Global Opaque sha256 sha384 sha512.
+
+(* ====================================================================================== *)
+(* lists                                                                                    *)
+(* ====================================================================================== *)
+Lemma firstn_app_len {A} (a b : list A) n : n = length a -> firstn n (a ++ b) = a.
+Proof. intros ->. rewrite firstn_app, Nat.sub_diag, firstn_all. simpl. apply app_nil_r. Qed.
+Lemma skipn_app_len {A} (a b : list A) n : n = length a -> skipn n (a ++ b) = b.
+Proof. intros ->. rewrite skipn_app, Nat.sub_diag, skipn_all. reflexivity. Qed.
+Lemma nlen_app {A} (a b : list A) : nlen (a ++ b) = nlen a + nlen b.
+Proof. unfold nlen. rewrite app_length. lia. Qed.
+Lemma nlen_nat {A} (a : list A) : N.to_nat (nlen a) = length a.
+Proof. unfold nlen. apply Nat2N.id. Qed.
+
+Lemma map_res_ok {A B} (f : A -> res B) (g : A -> B) l :
+  (forall a, In a l -> f a = Ok (g a)) -> map_res f l = Ok (map g l).
+Proof.
+  induction l as [|a t IH]; intros H; [reflexivity|].
+  cbn [map_res map]. rewrite (H a (or_introl eq_refl)). rewrite IH; [reflexivity|].
+  intros b Hb. apply H. now right.
+Qed.
+Lemma map_res_ext {A B} (f g : A -> res B) l : (forall a, In a l -> f a = g a) -> map_res f l = map_res g l.
+Proof.
+  induction l as [|a t IH]; intros H; [reflexivity|].
+  cbn [map_res]. rewrite (H a (or_introl eq_refl)). rewrite IH; [reflexivity|]. intros b Hb. apply H. now right.
+Qed.
+
+(* ====================================================================================== *)
+(* per-key hashes and RKHT.from_keys                                                        *)
+(* ====================================================================================== *)
+Definition key_ok (k : key) : Prop :=
+  match k with
+  | KRsa _ _ => True
+  | KEcc c x y => x < 2 ^ (8 * N.of_nat (coord_size c)) /\ y < 2 ^ (8 * N.of_nat (coord_size c))
+  end.
+Definition is_rsa (k : key) : Prop := match k with KRsa _ _ => True | _ => False end.
+Definition is_ecc (c : N) (k : key) : Prop := match k with KEcc c' _ _ => c' = c | _ => False end.
+(* the key sets the RKHT classes accept: RSA keys, or ECC keys of one curve P-256 / P-384 *)
+Definition uniform (ks : list key) : Prop :=
+  Forall is_rsa ks \/ exists c, (c = 256 \/ c = 384) /\ Forall (is_ecc c) ks.
+
+Lemma raw_key_ecc c x y : key_ok (KEcc c x y) ->
+  raw_key (KEcc c x y) = Ok (be_encf (coord_size c) x ++ be_encf (coord_size c) y).
+Proof. intros [Hx Hy]. unfold raw_key. rewrite (to_bytes_ok _ _ Hx), (to_bytes_ok _ _ Hy). reflexivity. Qed.
+
+Lemma calc_key_hash_spec k a : key_ok k -> key_halg k = Ok a -> calc_key_hash k = Ok (rkh_spec k).
+Proof.
+  destruct k as [n e|c x y]; intros Hk Ha; [reflexivity|].
+  destruct Hk as [Hx Hy]. unfold calc_key_hash. rewrite (to_bytes_ok _ _ Hy), (to_bytes_ok _ _ Hx). cbn [bind].
+  unfold key_halg in *. unfold rkh_spec.
+  destruct (c =? 256); [inversion Ha; reflexivity|]. destruct (c =? 384); [inversion Ha; reflexivity|discriminate].
+Qed.
+
+Lemma rkh_spec_length k : length (rkh_spec k) = match k with KEcc c _ _ => if c =? 256 then 32%nat else if c =? 384 then 48%nat else 64%nat | _ => 32%nat end.
+Proof.
+  destruct k as [n e|c x y]; [apply sha256_length|]. unfold rkh_spec.
+  destruct (c =? 256); [apply sha256_length|]. destruct (c =? 384); [apply sha384_length|apply sha512_length].
+Qed.
+
+Lemma uniform_halg ks k0 : uniform (k0 :: ks) ->
+  exists a0, key_halg k0 = Ok a0 /\ forall k, In k (k0 :: ks) -> key_halg k = Ok a0 /\ same_class k0 k = true.
+Proof.
+  intros [H|(c & Hc & H)].
+  - exists A256. rewrite Forall_forall in H. pose proof (H k0 (or_introl eq_refl)) as H0.
+    destruct k0; [|contradiction]. split; [reflexivity|]. intros k Hk. specialize (H k Hk). destruct k; [|contradiction]. split; reflexivity.
+  - rewrite Forall_forall in H. pose proof (H k0 (or_introl eq_refl)) as H0.
+    destruct k0 as [|c0 x0 y0]; [contradiction|]. simpl in H0. subst c0.
+    exists (if c =? 256 then A256 else A384). split.
+    + unfold key_halg. destruct Hc as [-> | ->]; reflexivity.
+    + intros k Hk. specialize (H k Hk). destruct k as [|c1 x1 y1]; [contradiction|]. simpl in H. subst c1.
+      split; [|reflexivity]. unfold key_halg. destruct Hc as [-> | ->]; reflexivity.
+Qed.
+
+Lemma halg_eqb_refl a : halg_eqb a a = true.
+Proof. destruct a; reflexivity. Qed.
+
+Lemma rkht_from_keys_ok ks : uniform ks -> Forall key_ok ks -> (length ks <= 4)%nat ->
+  rkht_from_keys ks = Ok (map rkh_spec ks).
+Proof.
+  intros HU HK HL. destruct ks as [|k0 t]; [reflexivity|].
+  destruct (uniform_halg t k0 HU) as (a0 & H0 & Hall).
+  unfold rkht_from_keys.
+  assert (E1 : forallb (same_class k0) (k0 :: t) = true).
+  { apply forallb_forall. intros k Hk. apply (Hall k Hk). }
+  rewrite E1. cbn [negb]. rewrite H0.
+  assert (E2 : forallb (fun k => match key_halg k with Ok a => halg_eqb a a0 | Err _ => false end) (k0 :: t) = true).
+  { apply forallb_forall. intros k Hk. destruct (Hall k Hk) as [-> _]. apply halg_eqb_refl. }
+  rewrite E2. cbn [negb].
+  rewrite (map_res_ok calc_key_hash rkh_spec).
+  - cbn [bind]. unfold nlen. rewrite map_length.
+    destruct (4 <? N.of_nat (length (k0 :: t))) eqn:E; [apply N.ltb_lt in E; lia|reflexivity].
+  - intros k Hk. rewrite Forall_forall in HK. apply (calc_key_hash_spec k a0); [apply HK, Hk|apply (Hall k Hk)].
+Qed.
+
+(* every hash of an accepted RSA / P-256 set is 32 bytes: RKHTv1.__init__ passes *)
+Definition v1_set (ks : list key) : Prop := Forall is_rsa ks \/ Forall (is_ecc 256) ks.
+Lemma v1_set_uniform ks : v1_set ks -> uniform ks.
+Proof. intros [H|H]; [now left|right; exists 256; split; [now left|assumption]]. Qed.
+Lemma v1_hash_len ks k : v1_set ks -> In k ks -> length (rkh_spec k) = 32%nat.
+Proof.
+  intros [H|H] Hk; rewrite Forall_forall in H; specialize (H k Hk); rewrite rkh_spec_length;
+    destruct k as [|c x y]; try contradiction; try reflexivity. simpl in H. subst c. reflexivity.
+Qed.
+Lemma rkht_v1_ok ks : v1_set ks -> Forall key_ok ks -> (length ks <= 4)%nat -> rkht_v1 ks = Ok (map rkh_spec ks).
+Proof.
+  intros HV HK HL. unfold rkht_v1. rewrite rkht_from_keys_ok by (try apply v1_set_uniform; assumption). cbn [bind].
+  assert (E : forallb (fun h => nlen h =? g_rkh_size) (map rkh_spec ks) = true).
+  { apply forallb_forall. intros h Hh. apply in_map_iff in Hh as (k & <- & Hk).
+    unfold nlen. rewrite (v1_hash_len ks k HV Hk). reflexivity. }
+  now rewrite E.
+Qed.
+
+(* RKHTv1.export of up to four 32-byte hashes = the hashes followed by zero slots *)
+Lemma export_v1_spec (hs : list (list N)) : (length hs <= 4)%nat -> (forall h, In h hs -> length h = 32%nat) ->
+  export_v1 hs = concat hs ++ zeros (32 * (4 - length hs)).
+Proof.
+  intros HL HH. unfold export_v1. change (N.to_nat g_rkht_size) with 4%nat. cbn [seq map concat].
+  assert (S : forall i h, nth_error hs i = Some h -> slot_v1 hs i = h).
+  { intros i h E. unfold slot_v1. rewrite E. pose proof (HH h (nth_error_In _ _ E)) as L. destruct h; [discriminate|reflexivity]. }
+  assert (Z : forall i, nth_error hs i = None -> slot_v1 hs i = zeros 32).
+  { intros i E. unfold slot_v1. now rewrite E. }
+  destruct hs as [|h0 [|h1 [|h2 [|h3 [|h4 t]]]]]; cbn [length] in HL; try lia.
+  - rewrite !Z by reflexivity. reflexivity.
+  - rewrite (S 0%nat h0), !Z by reflexivity. cbn [concat length Nat.sub Nat.mul]. rewrite !app_nil_r. reflexivity.
+  - rewrite (S 0%nat h0), (S 1%nat h1), !Z by reflexivity. cbn [concat length]. rewrite ?app_nil_r, <- ?app_assoc. reflexivity.
+  - rewrite (S 0%nat h0), (S 1%nat h1), (S 2%nat h2), !Z by reflexivity. cbn [concat length]. rewrite ?app_nil_r, <- ?app_assoc. reflexivity.
+  - rewrite (S 0%nat h0), (S 1%nat h1), (S 2%nat h2), (S 3%nat h3) by reflexivity. cbn [concat length]. rewrite ?app_nil_r, <- ?app_assoc. reflexivity.
+Qed.
+
+Lemma rkth_v1_spec ks : v1_set ks -> (length ks <= 4)%nat -> rkth_v1 (map rkh_spec ks) = rot_spec_v1 ks.
+Proof.
+  intros HV HL. unfold rkth_v1, rot_spec_v1. rewrite export_v1_spec.
+  - now rewrite map_length.
+  - now rewrite map_length.
+  - intros h Hh. apply in_map_iff in Hh as (k & <- & Hk). apply (v1_hash_len ks k HV Hk).
+Qed.
+
+Lemma convert_all_plain ks : convert_all (map (fun k => (k, SPlain)) ks) = Ok (map (fun k => (k, false)) ks).
+Proof. unfold convert_all. rewrite map_res_ok with (g := fun p : key * supply => (fst p, false)); [now rewrite map_map|]. intros [k s] H. apply in_map_iff in H as (k' & E & _). inversion E; subst. reflexivity. Qed.
+
+Lemma rot_v1_plain ks : v1_set ks -> Forall key_ok ks -> (length ks <= 4)%nat ->
+  rot_v1 (map (fun k => (k, SPlain)) ks) = Ok (rot_spec_v1 ks).
+Proof.
+  intros HV HK HL. unfold rot_v1. rewrite convert_all_plain. cbn [bind]. rewrite map_map. cbn [fst]. rewrite map_id.
+  rewrite rkht_v1_ok by assumption. cbn [bind]. now rewrite rkth_v1_spec.
+Qed.
+
+(* ---- the other cert-block-v1 paths *)
+Lemma key_hash256_v1 ks k : v1_set ks -> Forall key_ok ks -> In k ks -> key_hash256 k = Ok (rkh_spec k).
+Proof.
+  intros HV HK Hk. rewrite Forall_forall in HK. specialize (HK k Hk).
+  destruct HV as [H|H]; rewrite Forall_forall in H; specialize (H k Hk); destruct k as [n e|c x y]; try contradiction.
+  - unfold key_hash256, raw_key, rkh_spec. cbn [bind]. reflexivity.
+  - simpl in H. subst c. unfold key_hash256. rewrite raw_key_ecc by assumption. cbn [bind]. unfold rkh_spec.
+    change (256 =? 256) with true. cbv iota. unfold hash. reflexivity.
+Qed.
+Lemma cb1_rkh_ok ks : v1_set ks -> Forall key_ok ks -> (length ks <= 4)%nat ->
+  cb1_rkh_of_keys (map Some ks) = Ok (map rkh_spec ks).
+Proof.
+  intros HV HK HL. unfold cb1_rkh_of_keys. unfold nlen. rewrite map_length.
+  destruct (4 <? N.of_nat (length ks)) eqn:E; [apply N.ltb_lt in E; lia|].
+  rewrite map_res_ok with (g := fun o : option key => match o with Some k => rkh_spec k | None => zeros 32 end).
+  - now rewrite map_map.
+  - intros o Ho. apply in_map_iff in Ho as (k & <- & Hk). apply (key_hash256_v1 ks k HV HK Hk).
+Qed.
+
+Lemma pfr_v1_ok ks : v1_set ks -> Forall key_ok ks -> (length ks <= 4)%nat -> ks <> [] ->
+  pfr_rotkh 1 256 ks = Ok (rot_spec_v1 ks).
+Proof.
+  intros HV HK HL HN. unfold pfr_rotkh. change (1 =? 1) with true. cbv iota.
+  rewrite rkht_v1_ok by assumption. cbn [bind]. destruct ks as [|k0 t]; [contradiction|]. cbn [map].
+  assert (L : nlen (rkh_spec k0) = 32).
+  { unfold nlen. rewrite (v1_hash_len (k0 :: t) k0 HV (or_introl eq_refl)). reflexivity. }
+  rewrite L. change (256 <? 8 * 32) with false. cbv iota. cbn [bind].
+  change (rkh_spec k0 :: map rkh_spec t) with (map rkh_spec (k0 :: t)). rewrite rkth_v1_spec by assumption.
+  unfold rot_spec_v1 at 2. rewrite sha256_length. change (N.to_nat (256 / 8) - 32)%nat with 0%nat. simpl zeros.
+  now rewrite app_nil_r.
+Qed.
+
+(* debug credential, RSA: the exponent is written in exactly three bytes *)
+Definition rsa_e3 (k : key) : Prop := match k with KRsa _ e => byte_len e = 3%nat | _ => False end.
+Lemma dc_rsa_item_ok k : rsa_e3 k -> dc_rsa_item k = Ok (rkh_spec k).
+Proof.
+  destruct k as [n e|]; [|contradiction]. intros H. simpl in H. unfold dc_rsa_item.
+  assert (B : e < 2 ^ (8 * N.of_nat 3)) by (rewrite <- H; apply byte_len_bound).
+  rewrite (to_bytes_ok _ _ B). cbn [bind]. unfold rkh_spec, be_min. now rewrite H.
+Qed.
+Lemma rsa_e3_is_rsa ks : Forall rsa_e3 ks -> Forall is_rsa ks.
+Proof. apply Forall_impl. intros [|] H; [exact I|contradiction]. Qed.
+Lemma concat_len32 (hs : list (list N)) : (forall h, In h hs -> length h = 32%nat) -> length (concat hs) = (32 * length hs)%nat.
+Proof.
+  induction hs as [|h t IH]; intros H; [reflexivity|]. cbn [concat length]. rewrite app_length, (H h (or_introl eq_refl)), IH; [lia|].
+  intros x Hx. apply H. now right.
+Qed.
+Lemma dc_rsa_ok ks : Forall rsa_e3 ks -> (length ks <= 4)%nat -> dc_rsa_hash ks = Ok (rot_spec_v1 ks).
+Proof.
+  intros HE HL. unfold dc_rsa_hash, dc_rsa_meta. unfold nlen.
+  destruct (4 <? N.of_nat (length ks)) eqn:E; [apply N.ltb_lt in E; lia|].
+  rewrite (map_res_ok dc_rsa_item rkh_spec).
+  - cbn [bind]. unfold rot_spec_v1. do 2 f_equal. rewrite concat_len32.
+    + rewrite map_length. do 2 f_equal. lia.
+    + intros h Hh. apply in_map_iff in Hh as (k & <- & Hk).
+      apply (v1_hash_len ks k (or_introl (rsa_e3_is_rsa ks HE)) Hk).
+  - intros k Hk. rewrite Forall_forall in HE. apply dc_rsa_item_ok, HE, Hk.
+Qed.
+
+Lemma rsa_key_ok ks : Forall is_rsa ks -> Forall key_ok ks.
+Proof. apply Forall_impl. intros [|] H; [exact I|contradiction]. Qed.
+
+(* ---- cert block v1: every tool path gives the documented value *)
+Lemma paths_agree_v1_lemma (ks : list key) :
+  Forall is_rsa ks -> (length ks <= 4)%nat ->
+  rot_v1 (map (fun k => (k, SPlain)) ks) = Ok (rot_spec_v1 ks)
+  /\ (exists hs, cb1_rkh_of_keys (map Some ks) = Ok hs /\
+        forall mj mn fl bn il certs, cb1_rkth {| c1_major := mj; c1_minor := mn; c1_flags := fl; c1_build := bn;
+                                               c1_image_length := il; c1_certs := certs; c1_rkh := hs |} = rot_spec_v1 ks)
+  /\ (ks <> [] -> pfr_rotkh 1 256 ks = Ok (rot_spec_v1 ks))
+  /\ (Forall rsa_e3 ks -> dc_rsa_hash ks = Ok (rot_spec_v1 ks)).
+Proof.
+  intros HR HL. pose proof (rsa_key_ok ks HR) as HK. assert (HV : v1_set ks) by (now left).
+  split; [apply rot_v1_plain; assumption|]. split.
+  - exists (map rkh_spec ks). split; [apply cb1_rkh_ok; assumption|]. intros. unfold cb1_rkth. cbn [c1_rkh]. now apply rkth_v1_spec.
+  - split; [intros HN; apply pfr_v1_ok; assumption|]. intros HE. now apply dc_rsa_ok.
+Qed.
+Example paths_agree_v1_nontrivial : Forall is_rsa [KRsa 143 65537; KRsa 187 65537] /\ Forall rsa_e3 [KRsa 143 65537; KRsa 187 65537].
+Proof. split; repeat constructor. Qed.
+
+(* without the three-byte exponent the debug-credential path disagrees (e = 3) *)
+Lemma dc_rsa_e3_refuted : exists k, is_rsa k /\ ~ rsa_e3 k /\ dc_rsa_hash [k] <> rot_v1 [(k, SPlain)].
+Proof.
+  exists (KRsa 143 3). split; [exact I|]. split.
+  - simpl. vm_compute. discriminate.
+  - vm_compute. discriminate.
+Qed.
+
+(* ====================================================================================== *)
+(* cert block v2.1 paths                                                                    *)
+(* ====================================================================================== *)
+Definition ecc_set (c : N) (ks : list key) : Prop := (c = 256 \/ c = 384) /\ Forall (is_ecc c) ks.
+Lemma ecc_set_uniform c ks : ecc_set c ks -> uniform ks.
+Proof. intros [Hc H]. right. exists c. now split. Qed.
+Definition halg_c (c : N) : halg := if c =? 256 then A256 else A384.
+
+Lemma ecc_hash_len c ks k : ecc_set c ks -> In k ks -> rkh_spec k = hash (halg_c c) (match k with KEcc _ x y => be_encf (coord_size c) x ++ be_encf (coord_size c) y | _ => [] end)
+  /\ length (rkh_spec k) = hlen (halg_c c).
+Proof.
+  intros [Hc H] Hk. rewrite Forall_forall in H. specialize (H k Hk). destruct k as [|c1 x y]; [contradiction|]. simpl in H. subst c1.
+  unfold rkh_spec, halg_c. destruct Hc as [-> | ->]; cbn; split; try reflexivity; apply hash_length.
+Qed.
+
+Lemma rkth_v21_spec c ks : ecc_set c ks -> ks <> [] -> rkth_v21 (map rkh_spec ks) = Ok (rot_spec_v21 ks).
+Proof.
+  intros HS HN. destruct ks as [|k0 [|k1 t]]; [contradiction|reflexivity|].
+  cbn [map rkth_v21]. destruct (ecc_hash_len c _ k0 HS (or_introl eq_refl)) as [_ L0].
+  unfold nlen. rewrite L0.
+  assert (EH : halg_of_len (N.of_nat (hlen (halg_c c))) = Ok (halg_c c)).
+  { destruct HS as [[-> | ->] _]; reflexivity. }
+  rewrite EH. cbn [bind]. unfold export_v21, nlen. cbn [length].
+  replace (1 <? N.of_nat (S (S (length (map rkh_spec t))))) with true by (symmetry; apply N.ltb_lt; lia).
+  unfold rot_spec_v21. destruct HS as [Hc H]. inversion H as [|? ? H0 _]; subst.
+  destruct k0 as [|c0 x0 y0]; [contradiction|]. simpl in H0. subst c0.
+  destruct Hc as [-> | ->]; reflexivity.
+Qed.
+
+Lemma rot_v21_plain c ks : ecc_set c ks -> Forall key_ok ks -> (length ks <= 4)%nat -> ks <> [] ->
+  rot_v21 (map (fun k => (k, SPlain)) ks) = Ok (rot_spec_v21 ks).
+Proof.
+  intros HS HK HL HN. unfold rot_v21. rewrite convert_all_plain. cbn [bind]. rewrite map_map. cbn [fst]. rewrite map_id.
+  rewrite rkht_from_keys_ok by (try apply (ecc_set_uniform c); assumption). cbn [bind]. now apply (rkth_v21_spec c).
+Qed.
+
+Lemma ecc_only_set c ks : ecc_set c ks -> ecc_only ks = true.
+Proof.
+  intros [_ H]. unfold ecc_only. apply forallb_forall. intros k Hk. rewrite Forall_forall in H. specialize (H k Hk).
+  destruct k; [contradiction|reflexivity].
+Qed.
+
+Lemma rkr_calc_ok c ca used ks : ecc_set c ks -> Forall key_ok ks -> (length ks <= 4)%nat -> (N.to_nat used < length ks)%nat ->
+  exists k pub, nth_error ks (N.to_nat used) = Some k /\ raw_key k = Ok pub /\
+    rkr_calc ca used ks = Ok (N.lor (N.lor (N.lor (if ca then 2 ^ 31 else 0) (N.shiftl used 8)) (N.shiftl (nlen ks) 4)) (curve_nibble c),
+                              map rkh_spec ks, pub).
+Proof.
+  intros HS HK HL HU. destruct (nth_error ks (N.to_nat used)) as [k|] eqn:EN; [|apply nth_error_None in EN; lia].
+  pose proof (nth_error_In _ _ EN) as Hk.
+  assert (KO : key_ok k) by (rewrite Forall_forall in HK; now apply HK).
+  destruct HS as [Hc HF]. assert (HS : ecc_set c ks) by (now split).
+  assert (Ek : is_ecc c k) by (rewrite Forall_forall in HF; now apply HF).
+  destruct k as [|c1 x y]; [contradiction|]. simpl in Ek. subst c1.
+  exists (KEcc c x y), (be_encf (coord_size c) x ++ be_encf (coord_size c) y). split; [reflexivity|]. split; [now apply raw_key_ecc|].
+  unfold rkr_calc. destruct ks as [|k0 t]; [simpl in HU; lia|].
+  rewrite (ecc_only_set c _ HS). cbn [negb].
+  rewrite rkht_from_keys_ok by (try apply (ecc_set_uniform c); assumption). cbn [bind]. rewrite EN. rewrite raw_key_ecc by assumption. cbn [bind].
+  inversion HF as [|? ? H0 _]; subst. destruct k0 as [|c0 x0 y0]; [contradiction|]. simpl in H0. subst c0. reflexivity.
+Qed.
+
+Lemma cb21_rkth_ok c ca used ks isk fam : ecc_set c ks -> Forall key_ok ks -> (length ks <= 4)%nat -> (N.to_nat used < length ks)%nat ->
+  cb21_rkth {| b_ca := ca; b_used := used; b_keys := ks; b_isk := isk; b_family := fam |} = Ok (rot_spec_v21 ks).
+Proof.
+  intros HS HK HL HU. destruct (rkr_calc_ok c ca used ks HS HK HL HU) as (k & pub & _ & _ & E).
+  unfold cb21_rkth. cbn [b_ca b_used b_keys]. rewrite E. cbn [bind]. apply (rkth_v21_spec c); [assumption|].
+  intros ->. simpl in HU. lia.
+Qed.
+
+Lemma pfr_v21_ok c ks : ecc_set c ks -> Forall key_ok ks -> (length ks <= 4)%nat -> ks <> [] ->
+  pfr_rotkh 21 384 ks = Ok (rot_spec_v21 ks ++ zeros (48 - length (rot_spec_v21 ks))).
+Proof.
+  intros HS HK HL HN. unfold pfr_rotkh. change (21 =? 1) with false. cbv iota.
+  rewrite rkht_from_keys_ok by (try apply (ecc_set_uniform c); assumption). cbn [bind]. destruct ks as [|k0 t]; [contradiction|]. cbn [map].
+  destruct (ecc_hash_len c _ k0 HS (or_introl eq_refl)) as [_ L0]. unfold nlen at 1. rewrite L0.
+  assert (W : (384 <? 8 * N.of_nat (hlen (halg_c c))) = false) by (destruct HS as [[-> | ->] _]; reflexivity).
+  rewrite W. change (rkh_spec k0 :: map rkh_spec t) with (map rkh_spec (k0 :: t)).
+  rewrite (rkth_v21_spec c) by assumption. reflexivity.
+Qed.
+
+(* debug credential, ECC *)
+Lemma div_mul_cancel_nat n : n <> 0 -> 32 * n / n = 32 /\ 48 * n / n = 48.
+Proof. intros H. split; apply N.div_mul; assumption. Qed.
+Lemma concat_len_k (k : nat) (hs : list (list N)) : (forall h, In h hs -> length h = k) -> length (concat hs) = (k * length hs)%nat.
+Proof.
+  induction hs as [|h t IH]; intros H; [simpl; lia|]. cbn [concat length]. rewrite app_length, (H h (or_introl eq_refl)), IH; [lia|].
+  intros x Hx. apply H. now right.
+Qed.
+
+Lemma dc_ecc_ok c ks rot_id : ecc_set c ks -> Forall key_ok ks -> (length ks <= 4)%nat -> (N.to_nat rot_id < length ks)%nat ->
+  dc_ecc_hash ks rot_id = Ok (rot_spec_v21 ks).
+Proof.
+  intros HS HK HL HU. destruct HS as [Hc HF]. assert (HS : ecc_set c ks) by (now split).
+  unfold dc_ecc_hash, dc_ecc_items. destruct ks as [|k0 t] eqn:EK; [simpl in HU; lia|]. rewrite <- EK in *.
+  assert (E1 : forallb (fun k => match k with KEcc _ _ _ => true | _ => false end) ks = true).
+  { apply forallb_forall. intros k Hk. rewrite Forall_forall in HF. specialize (HF k Hk). destruct k; [contradiction|reflexivity]. }
+  assert (KB : forall k, In k ks -> key_bits k = c).
+  { intros k Hk. rewrite Forall_forall in HF. specialize (HF k Hk). destruct k; [contradiction|exact HF]. }
+  assert (K0 : key_bits k0 = c) by (apply KB; rewrite EK; now left).
+  rewrite EK at 1. rewrite <- EK. rewrite E1. cbn [negb]. rewrite K0.
+  assert (E2 : forallb (fun k => N.of_nat (coord_size (key_bits k)) =? N.of_nat (coord_size c)) ks = true).
+  { apply forallb_forall. intros k Hk. rewrite (KB k Hk). apply N.eqb_refl. }
+  rewrite E2. cbn [negb].
+  assert (EH : dc_hash_of_size (N.of_nat (coord_size c)) = Ok (halg_c c)) by (destruct Hc as [-> | ->]; reflexivity).
+  rewrite EH. cbn [bind].
+  assert (LN : (4 <? nlen ks) || (nlen ks <? rot_id + 1) = false).
+  { unfold nlen. apply orb_false_iff. split; [apply N.ltb_ge; lia|apply N.ltb_ge; lia]. }
+  destruct (1 <? nlen ks) eqn:E1n.
+  - rewrite (map_res_ok _ rkh_spec).
+    2:{ intros k Hk. assert (KO : key_ok k) by (rewrite Forall_forall in HK; now apply HK).
+        destruct (ecc_hash_len c ks k HS Hk) as [EQ _]. rewrite EQ. pose proof (KB k Hk) as B.
+        destruct k as [|c1 x y]; [discriminate|]. simpl in B. subst c1. rewrite raw_key_ecc by assumption. reflexivity. }
+    cbn [bind]. rewrite LN. unfold nlen at 1. rewrite map_length. fold (nlen ks). rewrite E1n.
+    assert (LC : length (concat (map rkh_spec ks)) = (hlen (halg_c c) * length ks)%nat).
+    { rewrite (concat_len_k (hlen (halg_c c))); [now rewrite map_length|].
+      intros h Hh. apply in_map_iff in Hh as (k & <- & Hk). apply (ecc_hash_len c ks k HS Hk). }
+    destruct (concat (map rkh_spec ks)) as [|b0 tb] eqn:EC.
+    { exfalso. simpl in LC. rewrite EK in LC. simpl in LC. destruct Hc as [-> | ->]; simpl in LC; lia. }
+    rewrite <- EC. unfold nlen. rewrite LC.
+    assert (NZ : N.of_nat (length ks) <> 0) by (rewrite EK; simpl; lia).
+    rewrite Nat2N.inj_mul.
+    assert (RS : rot_spec_v21 ks = hash (halg_c c) (concat (map rkh_spec ks))).
+    { rewrite EK. rewrite EK in E1n. destruct t as [|k1 t']; [unfold nlen in E1n; simpl in E1n; discriminate|].
+      unfold rot_spec_v21. destruct k0 as [|c0 x0 y0]; [discriminate|]. simpl in K0. subst c0.
+      destruct Hc as [-> | ->]; reflexivity. }
+    rewrite RS. destruct Hc as [-> | ->]; cbn [halg_c hlen N.eqb Pos.eqb].
+    + change (N.of_nat 32) with 32. rewrite (proj1 (div_mul_cancel_nat _ NZ)). reflexivity.
+    + change (N.of_nat 48) with 48. rewrite (proj2 (div_mul_cancel_nat _ NZ)). reflexivity.
+  - cbn [bind]. rewrite LN. change (nlen (@nil (list N))) with 0. change (1 <? 0) with false. cbv iota.
+    assert (L1 : ks = [k0]).
+    { rewrite EK. destruct t; [reflexivity|]. rewrite EK in E1n. unfold nlen in E1n. simpl in E1n. apply N.ltb_ge in E1n. lia. }
+    assert (R0 : N.to_nat rot_id = 0%nat) by (rewrite L1 in HU; simpl in HU; lia).
+    rewrite R0, L1. cbn [nth_error].
+    assert (KO : key_ok k0) by (rewrite Forall_forall in HK; apply HK; rewrite EK; now left).
+    destruct k0 as [|c0 x0 y0]; [discriminate|]. simpl in K0. subst c0.
+    rewrite raw_key_ecc by assumption. unfold key_halg, rot_spec_v21, rkh_spec. destruct Hc as [-> | ->]; reflexivity.
+Qed.
+
+Lemma paths_agree_v21_lemma (c : N) (ks : list key) :
+  (c = 256 \/ c = 384) -> Forall (is_ecc c) ks -> Forall key_ok ks -> ks <> [] -> (length ks <= 4)%nat ->
+  rot_v21 (map (fun k => (k, SPlain)) ks) = Ok (rot_spec_v21 ks)
+  /\ (forall ca used isk fam, (N.to_nat used < length ks)%nat ->
+        cb21_rkth {| b_ca := ca; b_used := used; b_keys := ks; b_isk := isk; b_family := fam |} = Ok (rot_spec_v21 ks))
+  /\ (forall rot_id, (N.to_nat rot_id < length ks)%nat -> dc_ecc_hash ks rot_id = Ok (rot_spec_v21 ks))
+  /\ pfr_rotkh 21 384 ks = Ok (rot_spec_v21 ks ++ zeros (48 - length (rot_spec_v21 ks))).
+Proof.
+  intros Hc HF HK HN HL. assert (HS : ecc_set c ks) by (now split).
+  split; [now apply (rot_v21_plain c)|]. split; [intros; now apply (cb21_rkth_ok c)|].
+  split; [intros; now apply (dc_ecc_ok c)|now apply (pfr_v21_ok c)].
+Qed.
